@@ -9,7 +9,7 @@ parameterisations - the full product, nothing sampled:
           x {archive on a file, archive over HTTP}
           x {output absent, empty, equal to the source, same chunks reversed, a prefix, source + junk, unrelated junk}
           x every subset of {--force-create, --seed-output, --verify-output}
-          x {no seed, a seed file holding half of the source, the same seed on stdin, the output path itself named as seed (refusal cells only)}
+          x {no seed, a seed file holding half of the source, the same seed on stdin, the output path itself named as seed (refusal cells only), a seed file and a second seed on stdin in both orders of the options}
           (+ -vv on every 4th cell)
   compress  {empty, 40-byte, 3000-byte source} x {file, stdin input} x {fixed, rollsum, default chunker}
           x {none, brotli} x {output absent, empty, shorter junk, longer junk, the same archive already there, absent with a stale temp file of an interrupted run, there together with such a temp file}
@@ -148,7 +148,7 @@ ARCHIVES = [
 ]
 STATES = ["absent", "empty", "equal", "reversed", "prefix", "longer", "junk"]
 FLAGS = ["-f", "--seed-output", "--verify-output"]
-SEEDS = ["none", "file", "stdin", "output-itself"]
+SEEDS = ["none", "file", "stdin", "output-itself", "file,stdin", "stdin,file"]
 
 
 def source_of(kind):
@@ -209,6 +209,12 @@ def run_clone_cell(bita, root, idx, cell, arch_paths, server, viol, arch_bytes=N
     elif cell["seed"] == "stdin":
         argv += ["--seed", "-"]
         stdin_data = seed_data
+    elif cell["seed"] in ("file,stdin", "stdin,file"):
+        # two seeds, one of them on stdin, in both orders of the options: together they hold every chunk
+        with open(os.path.join(d, "seed.bin"), "wb") as f:
+            f.write(seed_data)
+        argv += ["--seed", "seed.bin", "--seed", "-"] if cell["seed"] == "file,stdin" else ["--seed", "-", "--seed", "seed.bin"]
+        stdin_data = b"stdin-junk" + src[:len(src) // 2 // 4 * 4]
     elif cell["seed"] == "output-itself":
         # the output path named as a seed: must not change whether the command refuses
         argv += ["--seed", "out.img"]
@@ -272,8 +278,11 @@ def expected_runs(cell, kind, src, prior, seed_data, ab):
     have = set()
     if "--seed-output" in cell["flags"] and prior:
         have |= {prior[i:i + 4] for i in range(0, len(prior) - 3, 4)}
-    if cell["seed"] in ("file", "stdin"):
+    if cell["seed"] in ("file", "stdin", "file,stdin", "stdin,file"):
         have |= {seed_data[i:i + 4] for i in range(0, len(seed_data) - 3, 4)}
+    if cell["seed"] in ("file,stdin", "stdin,file"):
+        other = b"stdin-junk" + src[:len(src) // 2 // 4 * 4]
+        have |= {other[i:i + 4] for i in range(0, len(other) - 3, 4)}
     order = []
     for i in range(0, len(src), 4):
         if src[i:i + 4] not in order:
